@@ -120,6 +120,15 @@ def shard(ctx, arg):
                 rng.shuffle(orders)
                 orders = orders[: (6 if ctx.quick else 24)]
             datas = [W.write_dex(R.to_model([classes[i] for i in blk]), wopts()) for blk in p]
+            if rng.random() < 0.5:
+                # the pieces are first analysed on their own (classes of the other pieces are external there), each in an Analysis of its own,
+                # in the same process: nothing of that may be left when the pieces are analysed together afterwards
+                for j, dta in enumerate(datas):
+                    ctx.count("pieces_analysed_alone_before_the_split")
+                    try:
+                        analyse([dta])
+                    except Exception as e:
+                        ctx.violation("piece-alone-analysis-raises", "analysis of one piece of a split on its own raises", {"piece": [classes[i].name for i in p[j]], "exc": exc_str(e)})
             for order in orders:
                 ctx.ev()
                 ctx.count("split_analyses")
@@ -177,4 +186,5 @@ def run(ctx):
     n = 64 if ctx.quick else 4800
     ctx.run_shards(MOD, "shard", [[i, n // 16] for i in range(16)], timeout=3000)
     ctx.require_counter("split_analyses", 200)
+    ctx.require_counter("pieces_analysed_alone_before_the_split", 50)
     ctx.min_distinct = 8
